@@ -268,8 +268,18 @@ def run(ctx: Context, rep) -> None:
             if t is None:
                 res[r] = "unknown"
             else:
-                body = g.body if t else g.orelse
-                res[r] = "raise" if raises_in(body) else "load"
+                # what the function does under this scenario: the CFG
+                # specialised on the gate's truth (either polarity, early
+                # return or nested form)
+                cfg_v = CFG(load, oracle=lambda e, g=g, t=t: t
+                            if e is g.test else None)
+                live_v = cfg_v.reachable(
+                    [cfg_v.entry], follow=lambda a, b, lab: lab != "exc")
+                gate_raises = [n for n in live_v if n.kind == "stmt" and
+                               isinstance(n.ast, ast.Raise)]
+                res[r] = "load" if cfg_v.exit in live_v and not gate_raises \
+                    else ("raise" if gate_raises and cfg_v.exit not in live_v
+                          else "mixed")
         rep.ob("C20.gate", res == {-1: "load", 0: "load", 1: "raise"} and
                roles == {"recorded", "running"}, loc=load.loc(g),
                where=load.qualname, construct=short(g.test, 100),
